@@ -52,11 +52,19 @@ func (u c16Uses) Uses() map[string][]rux.HandlerFunc {
 		m := map[string][]rux.HandlerFunc{}
 		for _, a := range c16Actions {
 			a := a
-			m[a] = []rux.HandlerFunc{func(c *rux.Context) { u.rec.log = append(u.rec.log, "mw:"+a) }}
+			// two middleware per action, both closures of ONE function literal (like the output of a middleware factory)
+			m[a] = []rux.HandlerFunc{c16MW(u.rec, "mw:"+a), c16MW(u.rec, "mw2:"+a)}
 		}
 		u.rec.uses = m
 	}
 	return u.rec.uses
+}
+
+// c16MW is the one factory all per-action middleware come from (not inlined: every closure it returns shares one code pointer)
+//
+//go:noinline
+func c16MW(rec *c16Rec, tag string) rux.HandlerFunc {
+	return func(c *rux.Context) { rec.log = append(rec.log, tag) }
 }
 
 // wrong-shaped controllers
@@ -94,7 +102,7 @@ func c16Gen(tier string, emit func(c16Case)) {
 	emit(c16Case{Kind: "bad"})
 	for mask := 0; mask < 128; mask++ {
 		for _, uses := range []bool{false, true} {
-			for bi, base := range []string{"/", "/api/", ""} {
+			for bi, base := range []string{"/", "/api/", "", "/{t}/"} {
 				for _, grp := range []bool{false, true} {
 					if tier == "quick" && (mask+bi+b2i(grp)+b2i(uses))%2 == 1 {
 						continue
@@ -230,11 +238,20 @@ func c16Run(c c16Case, st *fw.Stats) []fw.Viol {
 		}
 	}
 	seenOrders := map[string]bool{}
+	// When Resource registers in an order of its own (not in the map's), driving the map cannot change what is observed:
+	// a small map iterated from a random offset shows k rotations of the insertion order, so 12 registrations that all
+	// produced one and the same order of k >= 2 actions mean the order does not come from the map; the remaining
+	// permutations are then not waited for (the one order that exists has been checked).
+	driven, totalDraws, fixedOrder := 0, 0, false
 	for _, want := range orders {
 		wantKey := strings.Join(want, ",")
 		if seenOrders[wantKey] {
 			continue
 		}
+		if fixedOrder {
+			break
+		}
+		driven++
 		// Uses() has keys for unimplemented actions too, and those are invisible in the debug print: their position
 		// in the iteration is varied by extra draws (Go starts a small map's iteration at a random slot)
 		minDraws := 1
@@ -242,6 +259,11 @@ func c16Run(c c16Case, st *fw.Stats) []fw.Viol {
 			minDraws = 10
 		}
 		for draw := 0; (draw < minDraws || !seenOrders[wantKey]) && draw < 400; draw++ {
+			if totalDraws++; totalDraws > 12 && draw >= minDraws && len(seenOrders) == 1 && len(impl) >= 2 {
+				fixedOrder = true
+				st.Inc("registration_order_independent_of_map_order", 1)
+				break
+			}
 			// drive Go's map order through the insertion order: the wanted order of the implemented actions,
 			// the unimplemented ones before them (even draws) or after them (odd draws)
 			m := map[string][]string{}
@@ -327,7 +349,7 @@ func c16Run(c c16Case, st *fw.Stats) []fw.Viol {
 				return vs
 			}
 		}
-		if !seenOrders[wantKey] {
+		if !seenOrders[wantKey] && !fixedOrder {
 			st.Cap("a wanted registration order was not observed within 400 draws")
 		}
 	}
@@ -370,7 +392,7 @@ func c16CheckTable(r *rux.Router, c c16Case, desc string, impl []string, resPath
 		sort.Strings(ms)
 		mw := 0
 		if c.Uses {
-			mw = 1
+			mw = 2
 		}
 		if c.Group {
 			mw += 2
@@ -400,7 +422,9 @@ func c16CheckTable(r *rux.Router, c c16Case, desc string, impl []string, resPath
 
 func c16CheckRouter(r *rux.Router, rec *c16Rec, c c16Case, desc string, impl []string, resPath, resName string, tb *refmodel.Table, defAction []string, st *fw.Stats, add func(sig, msg string)) {
 	// (2) every method x probe path answers as the table says, and nothing else is reachable
-	probes := []string{resPath, resPath + "/create", resPath + "/7", resPath + "/7/edit", resPath + "/create/edit", resPath + "/7/x", "/", resPath + "x"}
+	// (a variable in the base path is given the value "acme")
+	cp := strings.ReplaceAll(resPath, "{t}", "acme")
+	probes := []string{cp, cp + "/create", cp + "/7", cp + "/7/edit", cp + "/create/edit", cp + "/7/x", "/", cp + "x"}
 	type mp struct{ m, p string }
 	var seq []mp
 	for _, m := range refmodel.Methods {
@@ -438,13 +462,13 @@ func c16CheckRouter(r *rux.Router, rec *c16Rec, c c16Case, desc string, impl []s
 					wantLog = append(wantLog, "g0", "g1")
 				}
 				if c.Uses {
-					wantLog = append(wantLog, "mw:"+a)
+					wantLog = append(wantLog, "mw:"+a, "mw2:"+a)
 				}
 				wantLog = append(wantLog, "action:"+a+":"+id)
 			}
 			if strings.Join(rec.log, " ") != strings.Join(wantLog, " ") {
 				sig := "resource:dispatch"
-				if p == resPath+"/create" && m == "GET" {
+				if p == cp+"/create" && m == "GET" {
 					sig = "resource:create-vs-show"
 				}
 				add(sig, fmt.Sprintf("%s: %s %s ran [%s], the documented table gives [%s]", desc, m, p, strings.Join(rec.log, " "), strings.Join(wantLog, " ")))
@@ -462,11 +486,11 @@ var c16Spec = fw.Spec[c16Case]{
 	Workers: 1,
 	// the only nondeterminism is Go's map iteration order inside Resource (code under test): a confirmation replay may be retried
 	ReplayAttempts: 40,
-	Rule: "complete enumeration: all 128 subsets of the seven actions as controller method sets (generated types) x with/without Uses() (distinct middleware for every action, implemented or not) x base in {/, /api/, \"\"} x outside a group / inside Group(/g) / inside Group(/) (group middleware passed with spare capacity) (+ outside a group on a router with a route cache of capacity 1 or 2, all probes issued twice in two orders); the same controller (whose Uses() table is one shared map) registered twice; registration order inside Resource is Go map order: it is DRIVEN through the insertion order of the exported rux.RESTFulActions and OBSERVED from rux's own debug print, and registration is repeated until every permutation of the implemented actions (k<=4, thorough k<=6 on the plain base; all rotations of two base orders beyond) has been observed; " +
+	Rule: "complete enumeration: all 128 subsets of the seven actions as controller method sets (generated types) x with/without Uses() (two distinct middleware, closures of one function literal, for every action, implemented or not) x base in {/, /api/, \"\", /{t}/ (a variable in the base path)} x outside a group / inside Group(/g) / inside Group(/) (group middleware passed with spare capacity) (+ outside a group on a router with a route cache of capacity 1 or 2, all probes issued twice in two orders); the same controller (whose Uses() table is one shared map) registered twice; registration order inside Resource is Go map order: it is DRIVEN through the insertion order of the exported rux.RESTFulActions and OBSERVED from rux's own debug print, and registration is repeated until every permutation of the implemented actions (k<=4, thorough k<=6 on the plain base; all rotations of two base orders beyond) has been observed; " +
 		"per observed order: Routes()/NamedRoutes() equal the documented table exactly, all 9 methods x 8 probe paths dispatch as the reference resolver says over that table (create never served by show, nothing else reachable), per-action middleware runs only for its action; non-pointer / non-struct / wrong-shaped controllers; non-trivial = a distinct (subset, order) registration",
 	Assume: []string{"runs single-threaded: RESTFulActions, the debug switch and the colour output are process-global", "Go's small-map iteration starts at a random offset of the insertion order; an order not seen within 400 draws is reported as a cap, never as a violation"},
 	Bounds: func(tier string) map[string]any {
-		return map[string]any{"subsets": 128, "uses": 2, "bases": 3, "group": 2, "quick_takes_every_second_combination": tier == "quick"}
+		return map[string]any{"subsets": 128, "uses": 2, "bases": 4, "group": 2, "quick_takes_every_second_combination": tier == "quick"}
 	},
 	Gen:   c16Gen,
 	Run:   c16Run,
